@@ -312,8 +312,48 @@ def witness_delete_unloaded(ctx):
         db.disconnect()
 
 
+def witness_unflushed_parameter(ctx):
+    """found by this check, open: a query whose parameter is a new object with an auto-generated key evaluates its arguments
+    (primary key = None) BEFORE the implicit flush gives the object its key, and silently finds nothing
+    (fixes/C10-query-arguments-before-autoflush.diff)"""
+    db = Database()
+    class A(db.Entity):
+        bs = Set('B')
+    class B(db.Entity):
+        a = Optional(A)
+    db.bind('sqlite', ':memory:')
+    db.generate_mapping(create_tables=True)
+    from pony.orm import select, count, exists, delete
+    forms = [('select-generator', lambda a, b: [x.id for x in select(x for x in B if x.a == a)] == [b.id]),
+             ('collection-select', lambda a, b: [x.id for x in a.bs.select()] == [b.id]),
+             ('select-keyword', lambda a, b: [x.id for x in B.select(a=a)] == [b.id]),
+             ('get-keyword', lambda a, b: B.get(a=a) is b),
+             ('exists-keyword', lambda a, b: B.exists(a=a) is True),
+             ('count-generator', lambda a, b: count(x for x in B if x.a == a) == 1),
+             ('bulk-delete', lambda a, b: delete(x for x in B if x.a == a) == 1)]
+    wrong = []
+    try:
+        for name, f in forms:
+            with db_session:
+                a = A(); b = B(a=a)
+                try: ok = f(a, b)
+                except Exception as e: ok = 'raised ' + type(e).__name__
+                if ok is not True: wrong.append(name)
+                rollback()
+        ctx.case({'witness': 'unflushed-object-as-query-parameter', 'wrong': wrong}, kind='witness')
+        if wrong:
+            ctx.count('witness-reproduced:unflushed-object-as-query-parameter')
+            ctx.violation('a query, get(), exists(), aggregate or bulk delete whose parameter is a new unflushed object finds nothing: the arguments are evaluated before the implicit flush assigns the primary key',
+                          {'entities': 'A.bs=Set(B); B.a=Optional(A)', 'calls': ['a = A()', 'b = B(a=a)', 'select(x for x in B if x.a == a)[:]  (and 6 other forms)']},
+                          observed={'forms with a wrong answer': wrong}, expected={'forms with a wrong answer': []}, key='unflushed-object-as-query-parameter')
+        else: ctx.count('witness-not-reproduced:unflushed-object-as-query-parameter')
+    finally:
+        db.disconnect()
+
+
 def regressions(ctx):
     witness_delete_unloaded(ctx)
+    witness_unflushed_parameter(ctx)
     for name, hist in WITNESSES + REGRESSIONS:
         r = S.Run(hist['schema'], ops=hist['ops'], ctx=None)
         try:
